@@ -480,7 +480,10 @@ func (w *worker[T, JobType]) stopAndRemoveAllWorkers() {
 }
 
 func (w *worker[T, JobType]) start() error {
-	if w.IsRunning() {
+	// a run is started once: from Initiated (first bind, Resume) or by Restart, which resets the
+	// status first. Binding another queue to a running, paused or stopped worker must not start
+	// a second event loop or change the state.
+	if w.status.Load() != initiated {
 		return ErrRunningWorker
 	}
 
